@@ -16,7 +16,8 @@ RULE = (
     "not raise).  Oracle: str(ro) immediately before `ro += msg` == str(ro) after the exception "
     "propagated, for any exception type.  Non-trivial = the merge raised; distinct = distinct "
     "(state text, message text) digests."
-    ' Also: roMetadataReplace carrying non-metadata elements at every position among real metadata; anonymous / twin-ID layouts; repeated sources in moves; messages addressed to another roID; running orders without roSlug; present-but-empty timing tags.')
+    ' Also: roMetadataReplace carrying non-metadata elements at every position among real metadata; anonymous / twin-ID layouts; repeated sources in moves; messages addressed to another roID; running orders without roSlug; present-but-empty timing tags.'
+    ' Round 11: look-alike (white-space padded) copies of listed IDs at every position of moves, deletes and swaps; returning-element histories; history steps re-using an earlier messageID.')
 ASSUMPTIONS = ['an exception of any type counts (the type itself is C12\'s business)']
 MANDATORY = ['raised', 'malformed-payload', 'ItemMoveMultiple:fault-at-k>1', 'EAStoryMove:fault-at-k>1',
              'EAItemMove:fault-at-k>1', 'EAStorySwap:swap-self', 'EAItemSwap:swap-self',
